@@ -6,16 +6,23 @@
 //! compared with the model (the built struct is destructured exhaustively, so a new field cannot be
 //! forgotten), hence a setter that also touches, or fails to touch, another field is caught.
 //!
-//! Two sequence shapes are used, dictated by what CBMC can execute (measured, see the report):
+//! Two sequence shapes are used, dictated by what CBMC can execute (measured):
 //!
-//! * `*_setters_seq3` / `c19x_*_seq4`: every step picks one of the builder's *field setters* by
-//!   `kani::any()`; all orders of all setters up to that length are explored.
-//! * `*_chain_*` / `*_adders_*`: the *adders* (`add_*`, `value`, `param`, `claim`, ...: methods that
-//!   `Vec::push`) sit at fixed positions of the sequence, optionally with symbolic setter steps in
-//!   between.  A symbolic choice *between* pushing and not pushing merges `Vec` states (allocated
-//!   or not, capacity 0 or 4) and every later `push` then explores `realloc` with symbolic sizes:
-//!   2 symbolic steps over all 11 `HeaderBuilder` methods already need > 19 M SAT variables and do
-//!   not finish in 10 minutes, so the order of adders is enumerated by the harness text instead.
+//! * `*_setters_seq3` (quick) / `c19x_*_seq4` (thorough): every step picks one of the builder's
+//!   *field setters* by `kani::any()`; all orders of all setters up to that length are explored.
+//! * `*_chain*` / `*_adder*`: the *adders* (`add_*`, `value`, `text_value`, `param`, `claim`, ...:
+//!   methods that `Vec::push`) sit at fixed positions of the sequence, with symbolic setter steps
+//!   before/between them or with the other methods in a fixed order.  A symbolic choice *between*
+//!   pushing and not pushing merges `Vec` states (allocated or not, capacity 0 or 4) and every
+//!   later `push` then explores `realloc` with symbolic sizes: 2 symbolic steps over all 11
+//!   `HeaderBuilder` methods need > 19 M SAT variables and do not finish in 10 minutes (neither
+//!   does a path-per-sequence recursion), so the order of adders is enumerated by the harness text.
+//! * `BTreeSet::insert` into a NON-EMPTY set does not finish either (10 min, even with concrete
+//!   keys), so `add_key_op` is exercised once per sequence (see `c19_key_add_key_op`).
+//! * `CoseKdfContext` has private fields and no tractable observer but `==`: see `MKdf`.
+//!
+//! Cost note: every satisfied `cover!` makes CBMC build a trace of the whole path (5-40 s here),
+//! which is why each harness carries only the one or two witnesses that matter most.
 //!
 //! Arguments are described by small `Copy` "codes" (`Bytes`, `Txt`, `Val`, `Hdr`, `Sig`, `Rcp`, ...)
 //! from which the real coset argument is made (`mk`) and against which a built field is compared
@@ -909,12 +916,13 @@ fn msg_setters_seq<M: Msg, const STEPS: usize>() {
     core::mem::forget(t);
 }
 
-/// setter?, add(x), setter?, add(y), setter? -- adders at fixed positions, symbolic setters around.
+/// setter, add(x), setter, add(y) -- adders at fixed positions, symbolic setters before/between.
 fn msg_adder_chain<M: Msg>() {
     let (mut m, mut hist) = (MMsg::new(), Hist::new());
-    let mut b = msg_setter_steps::<M, 1>(M::new(), &mut m, &mut hist);
+    let mut b = M::new();
     let mut round = 0;
     while round < 2 {
+        b = msg_setter_steps::<M, 1>(b, &mut m, &mut hist);
         if M::ADDS == 1 {
             let g = Sig::any();
             m.sigs.push(g);
@@ -924,14 +932,12 @@ fn msg_adder_chain<M: Msg>() {
             m.rcps.push(r);
             b = b.add_rcp(r.mk());
         }
-        b = msg_setter_steps::<M, 1>(b, &mut m, &mut hist);
         round += 1;
     }
     let t = b.build();
     M::check(&t, &m);
     let (op, ne) = (&hist.op, &hist.ne);
-    kani::cover!(op[0] == M_PROTECTED && ne[0] && op[1] == M_OPT && op[2] == M_PROTECTED && ne[2]
-        && m.sigs.n + m.rcps.n == 2);
+    kani::cover!(op[0] == M_PROTECTED && ne[0] && op[1] == M_PROTECTED && ne[1] && m.sigs.n + m.rcps.n == 2);
     core::mem::forget(t);
 }
 
@@ -968,3 +974,927 @@ msg_harnesses!(CoseMac0Builder: c19_mac0_setters_seq3, c19x_mac0_setters_seq4);
 msg_harnesses!(CoseEncryptBuilder: c19_encrypt_setters_seq3, c19x_encrypt_setters_seq4, c19_encrypt_adder_chain);
 msg_harnesses!(CoseEncrypt0Builder: c19_encrypt0_setters_seq3, c19x_encrypt0_setters_seq4);
 msg_harnesses!(CoseRecipientBuilder: c19_recipient_setters_seq3, c19x_recipient_setters_seq4, c19_recipient_adder_chain);
+
+// ---------------------------------------------------------------------------------------------
+// CoseKeyBuilder
+// ---------------------------------------------------------------------------------------------
+
+#[derive(Clone, Copy)]
+enum Kty {
+    Assigned(iana::KeyType),
+    Text(Txt),
+}
+
+impl Kty {
+    fn is(&self, v: &KeyType) -> bool {
+        match (self, v) {
+            (Kty::Assigned(a), KeyType::Assigned(b)) => a == b,
+            (Kty::Text(a), KeyType::Text(b)) => a.is(b),
+            _ => false,
+        }
+    }
+}
+
+/// Shadow model of `CoseKey` as a builder can produce it.
+struct MKey {
+    kty: Kty,
+    key_id: Bytes,
+    alg: Option<iana::Algorithm>,
+    /// key operation `i` (1..=10) is in the set
+    key_ops: [bool; 11],
+    base_iv: Bytes,
+    params: List<(i64, Val)>,
+}
+
+impl MKey {
+    /// The documented state of `CoseKeyBuilder::new()`: `CoseKey::default()`, whose key type is
+    /// the registry's `Reserved` value.
+    fn new() -> Self {
+        MKey {
+            kty: Kty::Assigned(iana::KeyType::Reserved),
+            key_id: Bytes::EMPTY,
+            alg: None,
+            key_ops: [false; 11],
+            base_iv: Bytes::EMPTY,
+            params: List::new((0, Val::Null)),
+        }
+    }
+    fn with(kty: iana::KeyType) -> Self {
+        let mut m = MKey::new();
+        m.kty = Kty::Assigned(kty);
+        m
+    }
+    fn check(&self, key: &CoseKey) {
+        let CoseKey { kty, key_id, alg, key_ops, base_iv, params } = key;
+        assert!(self.kty.is(kty));
+        assert!(self.key_id.is(key_id));
+        assert!(alg_is(&self.alg, alg));
+        assert!(self.base_iv.is(base_iv));
+        assert!(params.len() == self.params.n);
+        let mut k = 0;
+        while k < CAP {
+            if k < self.params.n {
+                assert!(matches!(&params[k].0, Label::Int(l) if *l == self.params.items[k].0));
+                assert!(self.params.items[k].1.is(&params[k].1));
+            }
+            k += 1;
+        }
+        let mut want = 0;
+        let mut op = 1;
+        while op <= 10 {
+            if self.key_ops[op] {
+                want += 1;
+            }
+            op += 1;
+        }
+        assert!(key_ops.len() == want);
+    }
+}
+
+/// The reserved labels of `CoseKeyBuilder::param`: "a parameter label from the
+/// `iana::KeyParameter` range", i.e. the IANA "COSE Key Common Parameters" registry:
+/// Reserved 0, kty 1, kid 2, alg 3, key_ops 4, Base IV 5.
+fn key_label_reserved(l: i64) -> bool {
+    0 <= l && l <= 5
+}
+
+const K_KTY: u8 = 0;
+const K_KEY_ID: u8 = 1;
+const K_BASE_IV: u8 = 2;
+const K_KEY_TYPE: u8 = 3;
+const K_ALGORITHM: u8 = 4;
+const K_SETTERS: u8 = 5;
+
+fn k_kty_assigned(b: CoseKeyBuilder, m: &mut MKey) -> (CoseKeyBuilder, bool) {
+    let t: iana::KeyType = any_enum();
+    m.kty = Kty::Assigned(t);
+    (b.kty(KeyType::Assigned(t)), true)
+}
+
+fn k_kty_text(b: CoseKeyBuilder, m: &mut MKey) -> (CoseKeyBuilder, bool) {
+    let t = Txt::any();
+    m.kty = Kty::Text(t);
+    (b.kty(KeyType::Text(t.mk())), t.len > 0)
+}
+
+fn k_key_id(b: CoseKeyBuilder, m: &mut MKey) -> (CoseKeyBuilder, bool) {
+    let v = Bytes::any();
+    m.key_id = v;
+    (b.key_id(v.mk()), v.len > 0)
+}
+
+fn k_base_iv(b: CoseKeyBuilder, m: &mut MKey) -> (CoseKeyBuilder, bool) {
+    let v = Bytes::any();
+    m.base_iv = v;
+    (b.base_iv(v.mk()), v.len > 0)
+}
+
+fn k_key_type(b: CoseKeyBuilder, m: &mut MKey) -> (CoseKeyBuilder, bool) {
+    let t: iana::KeyType = any_enum();
+    m.kty = Kty::Assigned(t);
+    (b.key_type(t), true)
+}
+
+fn k_algorithm<const FULL: bool>(b: CoseKeyBuilder, m: &mut MKey) -> (CoseKeyBuilder, bool) {
+    let a = arg_alg::<FULL>();
+    m.alg = Some(a);
+    (b.algorithm(a), true)
+}
+
+fn k_add_key_op(b: CoseKeyBuilder, m: &mut MKey) -> (CoseKeyBuilder, bool) {
+    let o: iana::KeyOperation = any_enum();
+    m.key_ops[o.to_i64() as usize] = true;
+    (b.add_key_op(o), true)
+}
+
+/// `param(l, v)` for every label outside the reserved set: appended at the end of `params`.
+fn k_param(b: CoseKeyBuilder, m: &mut MKey) -> (CoseKeyBuilder, bool) {
+    let l: i64 = kani::any();
+    kani::assume(!key_label_reserved(l));
+    let v = Val::any();
+    m.params.push((l, v));
+    (b.param(l, v.mk()), true)
+}
+
+/// `STEPS` symbolic calls, each any of the five field setters.
+fn key_setter_steps<const STEPS: usize>(mut b: CoseKeyBuilder, m: &mut MKey, hist: &mut Hist) -> CoseKeyBuilder {
+    let mut s = 0;
+    while s < STEPS {
+        let op: u8 = kani::any();
+        kani::assume(op < K_SETTERS);
+        let (nb, ne) = match op {
+            K_KTY => {
+                if kani::any() {
+                    k_kty_assigned(b, m)
+                } else {
+                    k_kty_text(b, m)
+                }
+            }
+            K_KEY_ID => k_key_id(b, m),
+            K_BASE_IV => k_base_iv(b, m),
+            K_KEY_TYPE => k_key_type(b, m),
+            _ => k_algorithm::<false>(b, m),
+        };
+        b = nb;
+        hist.push(op, ne);
+        s += 1;
+    }
+    b
+}
+
+// The constructors.  The documented content of each: the key type it names and exactly the
+// parameters it names, in the IANA key-type-parameter labels (EC2: crv -1, x -2, y -3, d -4;
+// symmetric: k -1), everything else as in a fresh key.
+
+fn key_new() -> (CoseKeyBuilder, MKey) {
+    (CoseKeyBuilder::new(), MKey::new())
+}
+
+fn key_ec2_pub() -> (CoseKeyBuilder, MKey) {
+    let curve: iana::EllipticCurve = any_enum();
+    let (x, y) = (Bytes::any(), Bytes::any());
+    let mut m = MKey::with(iana::KeyType::EC2);
+    m.params.push((-1, Val::Int(curve.to_i64())));
+    m.params.push((-2, Val::Bytes(x)));
+    m.params.push((-3, Val::Bytes(y)));
+    (CoseKeyBuilder::new_ec2_pub_key(curve, x.mk(), y.mk()), m)
+}
+
+fn key_ec2_pub_y_sign() -> (CoseKeyBuilder, MKey) {
+    let curve: iana::EllipticCurve = any_enum();
+    let x = Bytes::any();
+    let y_sign: bool = kani::any();
+    let mut m = MKey::with(iana::KeyType::EC2);
+    m.params.push((-1, Val::Int(curve.to_i64())));
+    m.params.push((-2, Val::Bytes(x)));
+    m.params.push((-3, Val::Bool(y_sign)));
+    (CoseKeyBuilder::new_ec2_pub_key_y_sign(curve, x.mk(), y_sign), m)
+}
+
+fn key_ec2_priv() -> (CoseKeyBuilder, MKey) {
+    let curve: iana::EllipticCurve = any_enum();
+    let (x, y, d) = (Bytes::any(), Bytes::any(), Bytes::any());
+    let mut m = MKey::with(iana::KeyType::EC2);
+    m.params.push((-1, Val::Int(curve.to_i64())));
+    m.params.push((-2, Val::Bytes(x)));
+    m.params.push((-3, Val::Bytes(y)));
+    m.params.push((-4, Val::Bytes(d)));
+    (CoseKeyBuilder::new_ec2_priv_key(curve, x.mk(), y.mk(), d.mk()), m)
+}
+
+fn key_symmetric() -> (CoseKeyBuilder, MKey) {
+    let k = Bytes::any();
+    let mut m = MKey::with(iana::KeyType::Symmetric);
+    m.params.push((-1, Val::Bytes(k)));
+    (CoseKeyBuilder::new_symmetric_key(k.mk()), m)
+}
+
+fn key_okp() -> (CoseKeyBuilder, MKey) {
+    (CoseKeyBuilder::new_okp_key(), MKey::with(iana::KeyType::OKP))
+}
+
+/// constructor, setter, param(l, v), setter: the constructor's exact content, then the frame of
+/// setters and of `param` on top of it.
+fn key_from(start: (CoseKeyBuilder, MKey)) {
+    let (b, mut m) = start;
+    let mut hist = Hist::new();
+    let b = key_setter_steps::<1>(b, &mut m, &mut hist);
+    let (b, _) = k_param(b, &mut m);
+    let b = key_setter_steps::<1>(b, &mut m, &mut hist);
+    let key = b.build();
+    m.check(&key);
+    let (op, ne, n) = (&hist.op, &hist.ne, key.params.len());
+    kani::cover!(op[0] == K_KEY_TYPE && op[1] == K_KTY && !ne[1] && matches!(key.params[n - 1].0, Label::Int(6)));
+    core::mem::forget(key);
+}
+
+macro_rules! key_ctor_harness {
+    ($name:ident, $ctor:ident) => {
+        #[kani::proof]
+        #[kani::unwind(12)]
+        #[kani::stub(alloc::fmt::format, format_stub)]
+        fn $name() {
+            key_from($ctor());
+        }
+    };
+}
+key_ctor_harness!(c19_key_new, key_new);
+key_ctor_harness!(c19_key_new_ec2_pub_key, key_ec2_pub);
+key_ctor_harness!(c19_key_new_ec2_pub_key_y_sign, key_ec2_pub_y_sign);
+key_ctor_harness!(c19_key_new_ec2_priv_key, key_ec2_priv);
+key_ctor_harness!(c19_key_new_symmetric_key, key_symmetric);
+key_ctor_harness!(c19_key_new_okp_key, key_okp);
+
+fn key_setters_seq<const STEPS: usize>() {
+    let (mut m, mut hist) = (MKey::new(), Hist::new());
+    let b = key_setter_steps::<STEPS>(CoseKeyBuilder::new(), &mut m, &mut hist);
+    let key = b.build();
+    m.check(&key);
+    let (op, ne, z) = (&hist.op, &hist.ne, STEPS - 1);
+    kani::cover!(op[0] == K_KTY && ne[0] && op[1] == K_BASE_IV && ne[1] && op[z] == K_KEY_TYPE);
+    kani::cover!(op[0] == K_KEY_ID && ne[0] && op[1] == K_ALGORITHM && op[z] == K_KEY_ID && !ne[z]);
+    core::mem::forget(key);
+}
+
+/// All sequences of 3 calls over the five field setters, from `new()`.
+#[kani::proof]
+#[kani::unwind(12)]
+#[kani::stub(alloc::fmt::format, format_stub)]
+fn c19_key_setters_seq3() {
+    key_setters_seq::<3>();
+}
+
+#[kani::proof]
+#[kani::unwind(12)]
+#[kani::stub(alloc::fmt::format, format_stub)]
+fn c19x_key_setters_seq4() {
+    key_setters_seq::<4>();
+}
+
+/// `param` appends in call order, for every unreserved label, amid setters.
+#[kani::proof]
+#[kani::unwind(12)]
+#[kani::stub(alloc::fmt::format, format_stub)]
+fn c19_key_params_chain() {
+    let mut m = MKey::new();
+    let b = CoseKeyBuilder::new();
+    chain!(b, m; k_param, k_key_id, k_param, k_algorithm::<true>, k_kty_text, k_param, k_base_iv);
+    let key = b.build();
+    m.check(&key);
+    kani::cover!(matches!(key.params[0].0, Label::Int(-1)) && matches!(key.params[1].0, Label::Int(6))
+        && matches!(key.params[2].0, Label::Int(i64::MAX)) && key.base_iv.len() == 2);
+    core::mem::forget(key);
+}
+
+/// `add_key_op(o)`, for every registered operation, between two symbolic setter calls: the set
+/// then holds exactly `o`, nothing else changes.
+///
+/// Only ONE insertion per sequence: a second `BTreeSet::insert` (into a non-empty set) does not
+/// finish in CBMC within 10 minutes even with concrete operations, so "inserting into a non-empty
+/// operation set" (no duplicates, earlier members kept) is outside what these harnesses decide.
+#[kani::proof]
+#[kani::unwind(12)]
+#[kani::stub(alloc::fmt::format, format_stub)]
+fn c19_key_add_key_op() {
+    let (mut m, mut hist) = (MKey::new(), Hist::new());
+    let b = key_setter_steps::<1>(CoseKeyBuilder::new(), &mut m, &mut hist);
+    let (b, _) = k_add_key_op(b, &mut m);
+    let b = key_setter_steps::<1>(b, &mut m, &mut hist);
+    let key = b.build();
+    m.check(&key);
+    let other: iana::KeyOperation = any_enum();
+    assert!(key.key_ops.contains(&KeyOperation::Assigned(other)) == m.key_ops[other.to_i64() as usize]);
+    kani::cover!(hist.op[0] == K_KEY_ID && hist.ne[0] && hist.op[1] == K_BASE_IV && hist.ne[1]
+        && key.key_ops.contains(&KeyOperation::Assigned(iana::KeyOperation::MacVerify)));
+    core::mem::forget(key);
+}
+
+/// `param(l, _)` with a label of the common-key-parameter registry (0..=5) panics for every such
+/// label, whatever the builder state.
+#[kani::proof]
+#[kani::should_panic]
+#[kani::unwind(12)]
+#[kani::stub(alloc::fmt::format, format_stub)]
+fn c19_key_param_reserved_panics() {
+    let l: i64 = kani::any();
+    kani::assume(key_label_reserved(l));
+    let mut b = if kani::any() { CoseKeyBuilder::new() } else { CoseKeyBuilder::new_okp_key() };
+    if kani::any() {
+        b = b.param(-1, Value::Null);
+    }
+    let b = b.param(l, Val::any().mk());
+    returned_instead_of_panicking();
+    core::mem::forget(b);
+}
+
+// ---------------------------------------------------------------------------------------------
+// cwt::ClaimsSetBuilder
+// ---------------------------------------------------------------------------------------------
+
+#[derive(Clone, Copy)]
+enum Ts {
+    Whole(i64),
+    /// bit pattern of the `f64` (so that NaNs compare by identity)
+    Frac(u64),
+}
+
+impl Ts {
+    fn any() -> Self {
+        if kani::any() {
+            Ts::Whole(kani::any())
+        } else {
+            Ts::Frac(kani::any())
+        }
+    }
+    fn mk(&self) -> Timestamp {
+        match self {
+            Ts::Whole(i) => Timestamp::WholeSeconds(*i),
+            Ts::Frac(bits) => Timestamp::FractionalSeconds(f64::from_bits(*bits)),
+        }
+    }
+    fn opt_is(m: &Option<Ts>, v: &Option<Timestamp>) -> bool {
+        match (m, v) {
+            (None, None) => true,
+            (Some(Ts::Whole(a)), Some(Timestamp::WholeSeconds(b))) => a == b,
+            (Some(Ts::Frac(a)), Some(Timestamp::FractionalSeconds(b))) => *a == b.to_bits(),
+            _ => false,
+        }
+    }
+}
+
+#[derive(Clone, Copy)]
+enum Name {
+    Assigned(iana::CwtClaimName),
+    Text(Txt),
+    Private(i64),
+}
+
+impl Name {
+    fn is(&self, v: &ClaimName) -> bool {
+        match (self, v) {
+            (Name::Assigned(a), ClaimName::Assigned(b)) => a == b,
+            (Name::Text(a), ClaimName::Text(b)) => a.is(b),
+            (Name::Private(a), ClaimName::PrivateUse(b)) => a == b,
+            _ => false,
+        }
+    }
+}
+
+struct MClaims {
+    issuer: Option<Txt>,
+    subject: Option<Txt>,
+    audience: Option<Txt>,
+    expiration_time: Option<Ts>,
+    not_before: Option<Ts>,
+    issued_at: Option<Ts>,
+    cwt_id: Option<Bytes>,
+    rest: List<(Name, Val)>,
+}
+
+impl MClaims {
+    fn new() -> Self {
+        MClaims {
+            issuer: None,
+            subject: None,
+            audience: None,
+            expiration_time: None,
+            not_before: None,
+            issued_at: None,
+            cwt_id: None,
+            rest: List::new((Name::Private(0), Val::Null)),
+        }
+    }
+    fn check(&self, c: &ClaimsSet) {
+        let ClaimsSet { issuer, subject, audience, expiration_time, not_before, issued_at, cwt_id, rest } = c;
+        assert!(Txt::opt_is(&self.issuer, issuer));
+        assert!(Txt::opt_is(&self.subject, subject));
+        assert!(Txt::opt_is(&self.audience, audience));
+        assert!(Ts::opt_is(&self.expiration_time, expiration_time));
+        assert!(Ts::opt_is(&self.not_before, not_before));
+        assert!(Ts::opt_is(&self.issued_at, issued_at));
+        assert!(Bytes::opt_is(&self.cwt_id, cwt_id));
+        assert!(rest.len() == self.rest.n);
+        let mut k = 0;
+        while k < CAP {
+            if k < self.rest.n {
+                assert!(self.rest.items[k].0.is(&rest[k].0));
+                assert!(self.rest.items[k].1.is(&rest[k].1));
+            }
+            k += 1;
+        }
+    }
+}
+
+/// `claim()`: "a claim with name from the range [1, 7]" is refused.
+fn claim_name_reserved(n: i64) -> bool {
+    1 <= n && n <= 7
+}
+
+/// `private_claim()`: a key "outside of the private use range" is refused; the private-use range
+/// of the CWT claims registry is "less than -65536".
+fn claim_id_private(id: i64) -> bool {
+    id < -65536
+}
+
+const C_ISSUER: u8 = 0;
+const C_SUBJECT: u8 = 1;
+const C_AUDIENCE: u8 = 2;
+const C_EXPIRATION_TIME: u8 = 3;
+const C_NOT_BEFORE: u8 = 4;
+const C_ISSUED_AT: u8 = 5;
+const C_CWT_ID: u8 = 6;
+const C_SETTERS: u8 = 7;
+
+fn c_issuer(b: ClaimsSetBuilder, m: &mut MClaims) -> (ClaimsSetBuilder, bool) {
+    let t = Txt::any();
+    m.issuer = Some(t);
+    (b.issuer(t.mk()), t.len > 0)
+}
+fn c_subject(b: ClaimsSetBuilder, m: &mut MClaims) -> (ClaimsSetBuilder, bool) {
+    let t = Txt::any();
+    m.subject = Some(t);
+    (b.subject(t.mk()), t.len > 0)
+}
+fn c_audience(b: ClaimsSetBuilder, m: &mut MClaims) -> (ClaimsSetBuilder, bool) {
+    let t = Txt::any();
+    m.audience = Some(t);
+    (b.audience(t.mk()), t.len > 0)
+}
+fn c_expiration_time(b: ClaimsSetBuilder, m: &mut MClaims) -> (ClaimsSetBuilder, bool) {
+    let t = Ts::any();
+    m.expiration_time = Some(t);
+    (b.expiration_time(t.mk()), matches!(t, Ts::Frac(_)))
+}
+fn c_not_before(b: ClaimsSetBuilder, m: &mut MClaims) -> (ClaimsSetBuilder, bool) {
+    let t = Ts::any();
+    m.not_before = Some(t);
+    (b.not_before(t.mk()), matches!(t, Ts::Frac(_)))
+}
+fn c_issued_at(b: ClaimsSetBuilder, m: &mut MClaims) -> (ClaimsSetBuilder, bool) {
+    let t = Ts::any();
+    m.issued_at = Some(t);
+    (b.issued_at(t.mk()), matches!(t, Ts::Frac(_)))
+}
+fn c_cwt_id(b: ClaimsSetBuilder, m: &mut MClaims) -> (ClaimsSetBuilder, bool) {
+    let v = Bytes::any();
+    m.cwt_id = Some(v);
+    (b.cwt_id(v.mk()), v.len > 0)
+}
+/// `claim(name, v)` for every registered name outside 1..=7: appended.
+fn c_claim(b: ClaimsSetBuilder, m: &mut MClaims) -> (ClaimsSetBuilder, bool) {
+    let n: iana::CwtClaimName = any_enum();
+    kani::assume(!claim_name_reserved(n.to_i64()));
+    let v = Val::any();
+    m.rest.push((Name::Assigned(n), v));
+    (b.claim(n, v.mk()), true)
+}
+fn c_text_claim(b: ClaimsSetBuilder, m: &mut MClaims) -> (ClaimsSetBuilder, bool) {
+    let t = Txt::any();
+    let v = Val::any();
+    m.rest.push((Name::Text(t), v));
+    (b.text_claim(t.mk(), v.mk()), t.len > 0)
+}
+/// `private_claim(id, v)` for every id of the private-use range: appended.
+fn c_private_claim(b: ClaimsSetBuilder, m: &mut MClaims) -> (ClaimsSetBuilder, bool) {
+    let id: i64 = kani::any();
+    kani::assume(claim_id_private(id));
+    let v = Val::any();
+    m.rest.push((Name::Private(id), v));
+    (b.private_claim(id, v.mk()), true)
+}
+
+fn claims_setter_steps<const STEPS: usize>(
+    mut b: ClaimsSetBuilder,
+    m: &mut MClaims,
+    hist: &mut Hist,
+) -> ClaimsSetBuilder {
+    let mut s = 0;
+    while s < STEPS {
+        let op: u8 = kani::any();
+        kani::assume(op < C_SETTERS);
+        let (nb, ne) = match op {
+            C_ISSUER => c_issuer(b, m),
+            C_SUBJECT => c_subject(b, m),
+            C_AUDIENCE => c_audience(b, m),
+            C_EXPIRATION_TIME => c_expiration_time(b, m),
+            C_NOT_BEFORE => c_not_before(b, m),
+            C_ISSUED_AT => c_issued_at(b, m),
+            _ => c_cwt_id(b, m),
+        };
+        b = nb;
+        hist.push(op, ne);
+        s += 1;
+    }
+    b
+}
+
+fn claims_setters_seq<const STEPS: usize>() {
+    let (mut m, mut hist) = (MClaims::new(), Hist::new());
+    let b = claims_setter_steps::<STEPS>(ClaimsSetBuilder::new(), &mut m, &mut hist);
+    let c = b.build();
+    m.check(&c);
+    let (op, ne, z) = (&hist.op, &hist.ne, STEPS - 1);
+    kani::cover!(op[0] == C_ISSUER && ne[0] && op[1] == C_SUBJECT && op[z] == C_ISSUER && !ne[z]);
+    kani::cover!(op[0] == C_NOT_BEFORE && ne[0] && op[1] == C_EXPIRATION_TIME && op[z] == C_NOT_BEFORE && !ne[z]);
+    core::mem::forget(c);
+}
+
+/// All sequences of 3 calls over the seven typed-claim setters.
+#[kani::proof]
+#[kani::unwind(8)]
+#[kani::stub(alloc::fmt::format, format_stub)]
+fn c19_claims_setters_seq3() {
+    claims_setters_seq::<3>();
+}
+
+#[kani::proof]
+#[kani::unwind(8)]
+#[kani::stub(alloc::fmt::format, format_stub)]
+fn c19x_claims_setters_seq4() {
+    claims_setters_seq::<4>();
+}
+
+/// The three extra-claim calls interleaved with each other and with setters (symbolic setter
+/// before and between): every non-refused name is appended in call order.
+#[kani::proof]
+#[kani::unwind(8)]
+#[kani::stub(alloc::fmt::format, format_stub)]
+fn c19_claims_adders_chain() {
+    let (mut m, mut hist) = (MClaims::new(), Hist::new());
+    let b = claims_setter_steps::<1>(ClaimsSetBuilder::new(), &mut m, &mut hist);
+    chain!(b, m; c_claim, c_private_claim);
+    let b = claims_setter_steps::<1>(b, &mut m, &mut hist);
+    chain!(b, m; c_text_claim, c_claim, c_private_claim);
+    let c = b.build();
+    m.check(&c);
+    kani::cover!(hist.op[0] == C_CWT_ID && hist.ne[0] && hist.op[1] == C_CWT_ID && !hist.ne[1]
+        && matches!(c.rest[0].0, ClaimName::Assigned(iana::CwtClaimName::Cnf))
+        && matches!(c.rest[3].0, ClaimName::Assigned(iana::CwtClaimName::Reserved))
+        && matches!(c.rest[4].0, ClaimName::PrivateUse(-65537)));
+    core::mem::forget(c);
+}
+
+/// `claim(name, _)` with a name in 1..=7 panics for every such registered name.
+#[kani::proof]
+#[kani::should_panic]
+#[kani::unwind(8)]
+#[kani::stub(alloc::fmt::format, format_stub)]
+fn c19_claims_claim_reserved_panics() {
+    let n: iana::CwtClaimName = any_enum();
+    kani::assume(claim_name_reserved(n.to_i64()));
+    let mut b = ClaimsSetBuilder::new();
+    if kani::any() {
+        b = b.text_claim(Txt::any().mk(), Value::Null);
+    }
+    let b = b.claim(n, Val::any().mk());
+    returned_instead_of_panicking();
+    core::mem::forget(b);
+}
+
+/// `private_claim(id, _)` panics for every id that is not in the private-use range.
+#[kani::proof]
+#[kani::should_panic]
+#[kani::unwind(8)]
+#[kani::stub(alloc::fmt::format, format_stub)]
+fn c19_claims_private_claim_public_id_panics() {
+    let id: i64 = kani::any();
+    kani::assume(!claim_id_private(id));
+    let mut b = ClaimsSetBuilder::new();
+    if kani::any() {
+        b = b.cwt_id(Bytes::any().mk());
+    }
+    let b = b.private_claim(id, Val::any().mk());
+    returned_instead_of_panicking();
+    core::mem::forget(b);
+}
+
+// ---------------------------------------------------------------------------------------------
+// context: PartyInfoBuilder, SuppPubInfoBuilder, CoseKdfContextBuilder
+// ---------------------------------------------------------------------------------------------
+
+#[derive(Clone, Copy)]
+enum Non {
+    Bytes(Bytes),
+    Integer(i64),
+}
+
+impl Non {
+    fn any() -> Self {
+        if kani::any() {
+            Non::Bytes(Bytes::any())
+        } else {
+            Non::Integer(kani::any())
+        }
+    }
+    fn mk(&self) -> Nonce {
+        match self {
+            Non::Bytes(b) => Nonce::Bytes(b.mk()),
+            Non::Integer(i) => Nonce::Integer(*i),
+        }
+    }
+    fn opt_is(m: &Option<Non>, v: &Option<Nonce>) -> bool {
+        match (m, v) {
+            (None, None) => true,
+            (Some(Non::Bytes(a)), Some(Nonce::Bytes(b))) => a.is(b),
+            (Some(Non::Integer(a)), Some(Nonce::Integer(b))) => a == b,
+            _ => false,
+        }
+    }
+}
+
+fn party_info_seq<const STEPS: usize>() {
+    let mut b = PartyInfoBuilder::new();
+    let (mut identity, mut nonce, mut other): (Option<Bytes>, Option<Non>, Option<Bytes>) = (None, None, None);
+    let mut hist = Hist::new();
+    let mut s = 0;
+    while s < STEPS {
+        let op: u8 = kani::any();
+        kani::assume(op < 3);
+        match op {
+            0 => {
+                let v = Bytes::any();
+                identity = Some(v);
+                b = b.identity(v.mk());
+                hist.push(op, v.len > 0);
+            }
+            1 => {
+                let v = Non::any();
+                nonce = Some(v);
+                b = b.nonce(v.mk());
+                hist.push(op, matches!(v, Non::Integer(_)));
+            }
+            _ => {
+                let v = Bytes::any();
+                other = Some(v);
+                b = b.other(v.mk());
+                hist.push(op, v.len > 0);
+            }
+        }
+        s += 1;
+    }
+    let p = b.build();
+    let PartyInfo { identity: bi, nonce: bn, other: bo } = &p;
+    assert!(Bytes::opt_is(&identity, bi));
+    assert!(Non::opt_is(&nonce, bn));
+    assert!(Bytes::opt_is(&other, bo));
+    let (op, ne, z) = (&hist.op, &hist.ne, STEPS - 1);
+    kani::cover!(op[0] == 0 && ne[0] && op[1] == 2 && ne[1] && op[z] == 0 && !ne[z]);
+    kani::cover!(op[0] == 1 && ne[0] && op[1] == 0 && op[z] == 1 && !ne[z]);
+    core::mem::forget(p);
+}
+
+#[kani::proof]
+#[kani::unwind(8)]
+#[kani::stub(alloc::fmt::format, format_stub)]
+fn c19_party_info_seq3() {
+    party_info_seq::<3>();
+}
+
+#[kani::proof]
+#[kani::unwind(8)]
+#[kani::stub(alloc::fmt::format, format_stub)]
+fn c19x_party_info_seq5() {
+    party_info_seq::<5>();
+}
+
+fn supp_pub_info_seq<const STEPS: usize>() {
+    let mut b = SuppPubInfoBuilder::new();
+    let (mut kdl, mut protected, mut other): (u64, Hdr, Option<Bytes>) = (0, Hdr::EMPTY, None);
+    let mut hist = Hist::new();
+    let mut s = 0;
+    while s < STEPS {
+        let op: u8 = kani::any();
+        kani::assume(op < 3);
+        match op {
+            0 => {
+                let v: u64 = kani::any();
+                hist.push(op, v != kdl);
+                kdl = v;
+                b = b.key_data_length(v);
+            }
+            1 => {
+                let h = Hdr::any();
+                hist.push(op, h.differs(&protected));
+                protected = h;
+                b = b.protected(h.mk());
+            }
+            _ => {
+                let v = Bytes::any();
+                other = Some(v);
+                b = b.other(v.mk());
+                hist.push(op, v.len > 0);
+            }
+        }
+        s += 1;
+    }
+    let p = b.build();
+    let SuppPubInfo { key_data_length: bk, protected: bp, other: bo } = &p;
+    assert!(*bk == kdl);
+    assert!(protected.is_protected(bp));
+    assert!(Bytes::opt_is(&other, bo));
+    let (op, ne, z) = (&hist.op, &hist.ne, STEPS - 1);
+    kani::cover!(op[0] == 1 && ne[0] && op[1] == 0 && ne[1] && op[z] == 1 && ne[z]);
+    kani::cover!(op[0] == 0 && ne[0] && op[1] == 2 && op[z] == 0 && ne[z]);
+    core::mem::forget(p);
+}
+
+#[kani::proof]
+#[kani::unwind(8)]
+#[kani::stub(alloc::fmt::format, format_stub)]
+fn c19_supp_pub_info_seq3() {
+    supp_pub_info_seq::<3>();
+}
+
+#[kani::proof]
+#[kani::unwind(8)]
+#[kani::stub(alloc::fmt::format, format_stub)]
+fn c19x_supp_pub_info_seq4() {
+    supp_pub_info_seq::<4>();
+}
+
+/// A `PartyInfo` argument.
+#[derive(Clone, Copy)]
+struct Pi {
+    identity: Option<Bytes>,
+    nonce: Option<i64>,
+}
+
+impl Pi {
+    const EMPTY: Pi = Pi { identity: None, nonce: None };
+    fn any() -> Self {
+        Pi {
+            identity: if kani::any() { Some(Bytes::any()) } else { None },
+            nonce: if kani::any() { Some(kani::any()) } else { None },
+        }
+    }
+    fn mk(&self) -> PartyInfo {
+        PartyInfo { identity: self.identity.map(|b| b.mk()), nonce: self.nonce.map(Nonce::Integer), other: None }
+    }
+    fn differs(&self, o: &Pi) -> bool {
+        self.nonce != o.nonce
+            || match (&self.identity, &o.identity) {
+                (None, None) => false,
+                (Some(a), Some(b)) => !a.same(b),
+                _ => true,
+            }
+    }
+}
+
+/// A `SuppPubInfo` argument.
+#[derive(Clone, Copy)]
+struct Spi {
+    kdl: u64,
+    other: Option<Bytes>,
+}
+
+impl Spi {
+    const EMPTY: Spi = Spi { kdl: 0, other: None };
+    fn any() -> Self {
+        Spi { kdl: kani::any(), other: if kani::any() { Some(Bytes::any()) } else { None } }
+    }
+    fn mk(&self) -> SuppPubInfo {
+        SuppPubInfo { key_data_length: self.kdl, protected: Default::default(), other: self.other.map(|b| b.mk()) }
+    }
+}
+
+/// Shadow model of `CoseKdfContext`.  Its fields are private and its only tractable observer is
+/// `==` (`to_cbor_value` reaches `ProtectedHeader::cbor_bstr`, which CBMC cannot execute), so the
+/// model is turned into a REFERENCE VALUE by the canonical builder sequence "every setter once
+/// with the final argument, then the adds in order" and compared with `==`.  Consequence: a defect
+/// that is symmetric under that comparison (e.g. `party_u_info` and `party_v_info` consistently
+/// swapped) is invisible here; wrong-field writes, lost updates, non-overriding setters and
+/// misplaced appends are visible.
+struct MKdf {
+    alg: iana::Algorithm,
+    u: Pi,
+    v: Pi,
+    s: Spi,
+}
+
+impl MKdf {
+    /// `CoseKdfContext::default()`: algorithm `Reserved`, empty parties, zero key length.
+    fn new() -> Self {
+        MKdf { alg: iana::Algorithm::Reserved, u: Pi::EMPTY, v: Pi::EMPTY, s: Spi::EMPTY }
+    }
+    fn reference(&self) -> CoseKdfContextBuilder {
+        CoseKdfContextBuilder::new()
+            .algorithm(self.alg)
+            .party_u_info(self.u.mk())
+            .party_v_info(self.v.mk())
+            .supp_pub_info(self.s.mk())
+    }
+}
+
+const D_ALGORITHM: u8 = 0;
+const D_PARTY_U: u8 = 1;
+const D_PARTY_V: u8 = 2;
+const D_SUPP_PUB: u8 = 3;
+
+fn kdf_setter_steps<const STEPS: usize>(
+    mut b: CoseKdfContextBuilder,
+    m: &mut MKdf,
+    hist: &mut Hist,
+) -> CoseKdfContextBuilder {
+    let mut s = 0;
+    while s < STEPS {
+        let op: u8 = kani::any();
+        kani::assume(op <= D_SUPP_PUB);
+        match op {
+            D_ALGORITHM => {
+                let a = arg_alg::<false>();
+                hist.push(op, a != m.alg);
+                m.alg = a;
+                b = b.algorithm(a);
+            }
+            D_PARTY_U => {
+                let p = Pi::any();
+                hist.push(op, p.differs(&m.u));
+                m.u = p;
+                b = b.party_u_info(p.mk());
+            }
+            D_PARTY_V => {
+                let p = Pi::any();
+                hist.push(op, p.differs(&m.v));
+                m.v = p;
+                b = b.party_v_info(p.mk());
+            }
+            _ => {
+                let p = Spi::any();
+                hist.push(op, p.kdl != m.s.kdl);
+                m.s = p;
+                b = b.supp_pub_info(p.mk());
+            }
+        }
+        s += 1;
+    }
+    b
+}
+
+fn kdf_setters_seq<const STEPS: usize>() {
+    let (mut m, mut hist) = (MKdf::new(), Hist::new());
+    let b = kdf_setter_steps::<STEPS>(CoseKdfContextBuilder::new(), &mut m, &mut hist);
+    let (built, want) = (b.build(), m.reference().build());
+    assert!(built == want);
+    let (op, ne, z) = (&hist.op, &hist.ne, STEPS - 1);
+    kani::cover!(op[0] == D_PARTY_V && ne[0] && op[z] == D_PARTY_V && ne[z] && (STEPS < 3 || op[1] == D_PARTY_U));
+    kani::cover!(op[0] == D_SUPP_PUB && ne[0] && op[z] == D_ALGORITHM && ne[z]);
+    core::mem::forget(built);
+    core::mem::forget(want);
+}
+
+/// All sequences of 2 calls over the four setters, against the canonical reference sequence
+/// (3 calls: thorough tier; `==` on two whole contexts is what makes these harnesses slow).
+#[kani::proof]
+#[kani::unwind(8)]
+#[kani::stub(alloc::fmt::format, format_stub)]
+fn c19_kdf_context_setters_seq2() {
+    kdf_setters_seq::<2>();
+}
+
+#[kani::proof]
+#[kani::unwind(8)]
+#[kani::stub(alloc::fmt::format, format_stub)]
+fn c19x_kdf_context_setters_seq3() {
+    kdf_setters_seq::<3>();
+}
+
+/// `add_supp_priv_info` appends in call order and commutes with the setters:
+/// setter, add(x), setter, add(y)  ==  reference setters, add(x), add(y);  and differs from the
+/// reference with the two adds exchanged whenever x != y.  (Slow: three whole-context `==`.)
+#[kani::proof]
+#[kani::unwind(8)]
+#[kani::stub(alloc::fmt::format, format_stub)]
+fn c19_kdf_context_adders_chain() {
+    let (mut m, mut hist) = (MKdf::new(), Hist::new());
+    let (x, y) = (Bytes::any(), Bytes::any());
+    let b = kdf_setter_steps::<1>(CoseKdfContextBuilder::new(), &mut m, &mut hist);
+    let b = b.add_supp_priv_info(x.mk());
+    let b = kdf_setter_steps::<1>(b, &mut m, &mut hist);
+    let built = b.add_supp_priv_info(y.mk()).build();
+    let want = m.reference().add_supp_priv_info(x.mk()).add_supp_priv_info(y.mk()).build();
+    let swapped = m.reference().add_supp_priv_info(y.mk()).add_supp_priv_info(x.mk()).build();
+    assert!(built == want);
+    assert!(x.same(&y) || built != swapped);
+    kani::cover!(hist.op[0] == D_PARTY_U && hist.ne[0] && hist.op[1] == D_PARTY_U && hist.ne[1] && !x.same(&y));
+    core::mem::forget((built, want, swapped));
+}
